@@ -51,9 +51,18 @@ def shards(tier, seed):
     nsw = 4 if tier == "quick" else 8
     for i in range(nsw):
         out.append({"kind": "sweep", "part": i, "parts": nsw, "ks": [1, 2] if tier == "quick" else [1, 2, 3]})
-    for sp in ("popen", "socket", "via"):
+    import glob
+
+    others = [v for v in ("3.10", "3.11", "3.13") if glob.glob(f"/root/.pyenv/versions/{v}.*/bin/python")]
+    for sp in ["popen", "socket", "via"] + ["py" + v for v in others]:
         out.append({"kind": "real", "spec": sp, "runs": 4 if tier == "quick" else 80})
     return out
+
+
+def other_python(spec_name):
+    import glob
+
+    return sorted(glob.glob(f"/root/.pyenv/versions/{spec_name[2:]}.*/bin/python"))[-1]
 
 
 def gen_program(rng, kind=None):
@@ -558,7 +567,8 @@ def run_real(spec):
         try:
             if spec["spec"] == "via":
                 group.makegateway("popen//id=m")
-            gw = group.makegateway("popen//execmodel=main_thread_only" + ("//via=m" if spec["spec"] == "via" else ""))
+            gw = group.makegateway("popen//execmodel=main_thread_only" + ("//via=m" if spec["spec"] == "via" else "")
+                                   + (f"//python={other_python(spec['spec'])}" if spec["spec"].startswith("py") else ""))
             for k in range(len(EXCS) - 1):
                 src, errline = body_source(1000 + k, k % 3, k)
                 ch = gw.remote_exec(src)
@@ -589,6 +599,9 @@ def run_real(spec):
         try:
             if spec["spec"] == "popen":
                 gw = group.makegateway("popen")
+            elif spec["spec"].startswith("py"):
+                # the failing side runs another supported interpreter (the error text is produced there)
+                gw = group.makegateway(f"popen//python={other_python(spec['spec'])}")
             elif spec["spec"] == "socket":
                 group.makegateway("popen//id=m")
                 gw = group.makegateway("socket//installvia=m")
